@@ -67,10 +67,13 @@ fn normalising(k: Kind) -> bool {
 
 /// horizon long enough for the documented envelope to fall below 1e-14 of the largest difference
 pub fn horizon(spec: &Spec, floor: usize) -> usize {
+    horizon_for(spec, floor, 1e-14)
+}
+pub fn horizon_for(spec: &Spec, floor: usize, target: f64) -> usize {
     let (pole, mult, w) = dynamics(spec);
     let r = pole.sqrt().min(0.99999);
     let c = 1e3f64.powi(mult.min(4) as i32).min(1e9);
-    let need = if r <= 0.0 { 0.0 } else { ((1e-14 / c).ln() / r.ln()).ceil() };
+    let need = if r <= 0.0 { 0.0 } else { ((target / c).ln() / r.ln()).ceil() };
     (2 * (w + need as usize) + 200).max(floor).min(400_000)
 }
 
@@ -190,6 +193,103 @@ fn check(spec: &Spec, prefixes: &[Vec<f64>], t: usize, st: &mut Stats, sink: &Si
     }
 }
 
+/// (a') boundedness across quiet stretches: a lively stretch, L identical values, a lively stretch
+/// again. The documented bound must hold at every step whatever L is (a normaliser that lags
+/// behind its numerator gives a bound that grows with the length of the quiet stretch).
+fn check_gaps(spec: &Spec, st: &mut Stats, sink: &Sink) {
+    st.configs += 1;
+    let n = spec.n.max(1);
+    let lively = 3 * n + 24;
+    for tail in TAILS {
+        for gap in [64usize, 512, 3000] {
+            for level in [0.0, 1.0, -2.0] {
+                let total = lively + gap + lively;
+                let at = |i: usize| -> f64 {
+                    if i < lively {
+                        tail[i % tail.len()]
+                    } else if i < lively + gap {
+                        level
+                    } else {
+                        tail[i % tail.len()]
+                    }
+                };
+                let cap = abs_cap(spec, 3.0);
+                let r = guard(|| {
+                    let mut v = build::<f64>(spec);
+                    for i in 0..total {
+                        v.update(at(i));
+                        if let Some(o) = v.last() {
+                            if !o.is_finite() || o.abs() > cap {
+                                return Some((i, o));
+                            }
+                        }
+                    }
+                    None
+                });
+                st.transitions += total as u64;
+                st.states += total as u64;
+                st.oracle_evals += total as u64;
+                st.traces += 1;
+                match r {
+                    Ok(Some((i, o))) => {
+                        let h: Vec<f64> = (0..=i).map(at).collect();
+                        sink.push(Violation::new("C09", spec, "bounded", "f64", &h, format!("{} lively values, {} identical values {}, then lively again: output {:e} at step {}; the documented bound is {:e}", lively, gap, level, o, i, cap)));
+                        return;
+                    }
+                    Ok(None) => {}
+                    Err(m) => {
+                        let h: Vec<f64> = (0..total.min(400)).map(at).collect();
+                        sink.push(Violation::new("C09", spec, "panicked", "f64", &h, format!("{} (lively / {} identical values / lively)", m, gap)));
+                        return;
+                    }
+                }
+            }
+        }
+    }
+}
+
+/// (b') fading memory after a spike far above the scale of the tail: every trace of a value of
+/// magnitude 1e12 must die out geometrically (an aggregate that is maintained by adding and
+/// subtracting keeps the rounding residue of the spike for ever).
+fn check_spikes(spec: &Spec, st: &mut Stats, sink: &Sink) {
+    st.configs += 1;
+    let t = horizon_for(spec, 1500, 1e-30);
+    let prefixes: [&[f64]; 2] = [&[1e12], &[1.0, -1e12, 0.0, 1e12]];
+    let floor = if normalising(spec.kind) { 1e-6 } else { 1e-9 * 3.0 };
+    for tail in &TAILS[1..] {
+        let base = match run_one(spec, &[], tail, t) {
+            Ok(b) => b,
+            Err(_) => return,
+        };
+        if normalising(spec.kind) && spec.ch[0].kind != Kind::Echo {
+            continue;
+        }
+        for p in prefixes {
+            let out = match run_one(spec, p, tail, t) {
+                Ok(o) => o,
+                Err(m) => {
+                    sink.push(Violation::new("C09", spec, "panicked", "f64", p, format!("{} (spike prefix, then {:?}* for {} steps)", m, tail, t)));
+                    return;
+                }
+            };
+            st.transitions += t as u64;
+            st.states += t as u64;
+            st.traces += 1;
+            for k in (3 * t / 4)..t {
+                if let (Some(a), Some(b)) = (out[k], base[k]) {
+                    st.oracle_evals += 1;
+                    if !a.is_finite() || (a - b).abs() > floor {
+                        let mut h = p.to_vec();
+                        h.extend((0..300.min(k + 1)).map(|i| tail[i % tail.len()]));
+                        sink.push(Violation::new("C09", spec, "fading-memory", "f64", &h, format!("streams with prefix {:?} and with no prefix share the tail {:?}*; {} steps after they merged the outputs are {:e} and {:e}: the spike is still remembered (floor {:e})", p, tail, k, a, b, floor)).tag("after_spike"));
+                        return;
+                    }
+                }
+            }
+        }
+    }
+}
+
 fn recursive_specs(n: usize, quick: bool) -> Vec<Spec> {
     use Kind::*;
     let e = Spec::echo;
@@ -227,6 +327,10 @@ pub fn run(ctx: &Ctx) -> CheckOutput {
                 let mut st = Stats::default();
                 let sink = Sink::new();
                 check(&spec, &prefixes, t, &mut st, &sink);
+                if n <= 64 {
+                    check_gaps(&spec, &mut st, &sink);
+                    check_spikes(&spec, &mut st, &sink);
+                }
                 JobOut { stats: st, viols: sink.take(), samples: vec![json!({"view":spec.name(),"prefixes":prefixes.len(),"tails":TAILS,"T":t,"pole":dynamics(&spec).0})] }
             }));
         }
@@ -262,7 +366,7 @@ pub fn run(ctx: &Ctx) -> CheckOutput {
         stats: o.stats,
         violations: o.viols,
         samples: o.samples,
-        rule: "every recursive view x every N in the stated list (all N to 16 and selected N to 1000 quick; all N to 64 and five larger thorough), LaguerreFilter for five gammas, two-level chains: every prefix over Z3 up to the stated length x three periodic tails, extended to T steps; (a) every output finite, within the documented absolute bound, and sup|out| over T no larger than over T/4; (b) against the empty prefix the outputs converge under a geometric envelope whose rate is the square root of the slowest documented pole, and agree to 1e-9 from T/2 on".into(),
+        rule: "every recursive view x every N in the stated list (all N to 16 and selected N to 1000 quick; all N to 64 and five larger thorough), LaguerreFilter for five gammas, two-level chains: every prefix over Z3 up to the stated length x three periodic tails, extended to T steps; (a) every output finite, within the documented absolute bound, and sup|out| over T no larger than over T/4; (b) against the empty prefix the outputs converge under a geometric envelope whose rate is the square root of the slowest documented pole, and agree to 1e-9 from T/2 on; (a') the documented bound across quiet stretches of 64, 512 and 3000 identical values between lively stretches; (b') a 1e12 spike before the common tail is forgotten: outputs agree to the rounding floor over the last quarter of a horizon sized for 30 decades of decay".into(),
         assumptions: vec!["'unbounded length' is decided up to T; the driver set is exhaustive, the horizon is a bound".into(), "the envelope rate comes from the documented equations, not from the data".into()],
         exhaustive: true,
         bounds: json!({"T": "2*(FIR memory + steps for the documented envelope to reach 1e-14) + 200, at least 1000 (quick) / 4000 (thorough)"}),
